@@ -8,6 +8,7 @@ import (
 	"os/exec"
 	"path/filepath"
 	"regexp"
+	"runtime"
 	"strings"
 	"sync"
 	"time"
@@ -30,7 +31,38 @@ var solvers = []solverDef{
 	}},
 }
 
+// solverSlots bounds the number of solver processes running at once to the number of cores: a solver's
+// time limit is wall-clock time, so an oversubscribed machine turns easy obligations into time-outs.
+var solverSlots = make(chan struct{}, maxInt(4, runtime.NumCPU()))
+
+func maxInt(a, b int) int {
+	if a > b {
+		return a
+	}
+	return b
+}
+
+// runCmdTimeout waits for a solver slot first and only then starts the clock.
+func runCmdTimeout(argv []string, d time.Duration) (string, error) {
+	solverSlots <- struct{}{}
+	defer func() { <-solverSlots }()
+	ctx, cancel := context.WithTimeout(context.Background(), d)
+	defer cancel()
+	cmd := exec.CommandContext(ctx, argv[0], argv[1:]...)
+	var out bytes.Buffer
+	cmd.Stdout = &out
+	cmd.Stderr = &out
+	err := cmd.Run()
+	return out.String(), err
+}
+
 func runCmd(ctx context.Context, argv []string) (string, error) {
+	select {
+	case solverSlots <- struct{}{}:
+		defer func() { <-solverSlots }()
+	case <-ctx.Done():
+		return "", ctx.Err()
+	}
 	cmd := exec.CommandContext(ctx, argv[0], argv[1:]...)
 	var out bytes.Buffer
 	cmd.Stdout = &out
@@ -93,9 +125,7 @@ func solveVC(vc *VC, cfg solveCfg) {
 			}
 			os.WriteFile(file, []byte(script), 0o644)
 			t0 := time.Now()
-			ctx, cancel := context.WithTimeout(context.Background(), time.Duration(cfg.incTimeoutMs*len(obs)+20000)*time.Millisecond)
-			out, _ := runCmd(ctx, []string{"z3-new", file})
-			cancel()
+			out, _ := runCmdTimeout([]string{"z3-new", file}, time.Duration(cfg.incTimeoutMs*len(obs)+20000)*time.Millisecond)
 			if !cfg.keep {
 				os.Remove(file)
 			}
@@ -256,9 +286,7 @@ func raceOne(vc *VC, ob *Oblig, base string, cfg solveCfg) {
 		// axioms (which only constrain uninterpreted helper functions), where `sat` is decidable
 		f := base + ".noax.smt2"
 		os.WriteFile(f, []byte(dropQuantified(vc.header()+vc.standaloneBody(ob, false))), 0o644)
-		ctx2, cancel2 := context.WithTimeout(context.Background(), time.Duration(cfg.raceTimeoutS)*time.Second)
-		out, _ := runCmd(ctx2, []string{"z3-new", fmt.Sprintf("-T:%d", cfg.raceTimeoutS), f})
-		cancel2()
+		out, _ := runCmdTimeout([]string{"z3-new", fmt.Sprintf("-T:%d", cfg.raceTimeoutS), f}, time.Duration(cfg.raceTimeoutS+5)*time.Second)
 		if !cfg.keep {
 			os.Remove(f)
 		}
@@ -271,9 +299,7 @@ func raceOne(vc *VC, ob *Oblig, base string, cfg solveCfg) {
 		// decidable fragment; a model found there is a candidate counterexample (to be replayed)
 		f := base + ".noax.smt2"
 		os.WriteFile(f, []byte("(set-option :produce-models true)\n"+vc.header()+vc.standaloneBody(ob, true)), 0o644)
-		ctx2, cancel2 := context.WithTimeout(context.Background(), time.Duration(cfg.raceTimeoutS)*time.Second)
-		out, _ := runCmd(ctx2, []string{"z3-new", fmt.Sprintf("-T:%d", cfg.raceTimeoutS), f})
-		cancel2()
+		out, _ := runCmdTimeout([]string{"z3-new", fmt.Sprintf("-T:%d", cfg.raceTimeoutS), f}, time.Duration(cfg.raceTimeoutS+5)*time.Second)
 		if !cfg.keep {
 			os.Remove(f)
 		}
@@ -332,9 +358,7 @@ func caseSplitAppends(vc *VC, ob *Oblig, base string, cfg solveCfg, script strin
 			sb.WriteString("(check-sat)\n")
 			f := fmt.Sprintf("%s.case%d.smt2", base, mask)
 			os.WriteFile(f, []byte(sb.String()), 0o644)
-			ctx, cancel := context.WithTimeout(context.Background(), time.Duration(cfg.raceTimeoutS+5)*time.Second)
-			out, _ := runCmd(ctx, []string{"z3-new", fmt.Sprintf("-T:%d", cfg.raceTimeoutS), f})
-			cancel()
+			out, _ := runCmdTimeout([]string{"z3-new", fmt.Sprintf("-T:%d", cfg.raceTimeoutS), f}, time.Duration(cfg.raceTimeoutS+5)*time.Second)
 			if !cfg.keep {
 				os.Remove(f)
 			}
